@@ -452,9 +452,14 @@ func delivery(ms int, accepted bool) []byte {
 func genC12(r *Run) {
 	evals := 0
 	taus := []int{1, 50, 5000}
+	maxN := 6
+	if r.Thorough() {
+		taus = []int{1, 2, 3, 7, 50, 333, 1000, 5000, 33000, 120000} // also long timeouts (doubling reaches minutes and hours)
+		maxN = 9
+	}
 	for _, entry := range []int{eTimedV4, eTimedV6} {
 		for _, tau := range taus {
-			for n := 0; n <= 6; n++ {
+			for n := 0; n <= maxN; n++ {
 				if tau == 5000 && n > 4 && !r.Thorough() {
 					continue
 				}
